@@ -205,7 +205,7 @@ def _vclass(bucket):
     return c
 
 
-def hyp_search(ctx, kind, strategy, check_case, max_examples, seed_salt=0, max_rounds=6,
+def hyp_search(ctx, kind, strategy, check_case, max_examples, seed_salt=0, max_rounds=None,
                shrink_budget_s=None, sample_of=None, stateful_steps=None):
     """Drive `check_case(case) -> (discs, nontrivial, classes)` over `strategy`.
 
@@ -216,6 +216,8 @@ def hyp_search(ctx, kind, strategy, check_case, max_examples, seed_salt=0, max_r
     import hypothesis
     from hypothesis import HealthCheck, Phase, given, settings
 
+    if max_rounds is None:
+        max_rounds = 3 if ctx.tier == "quick" else 6
     if shrink_budget_s is None:
         shrink_budget_s = 8.0 if ctx.tier == "quick" else 120.0
     muted = set()
